@@ -84,6 +84,7 @@ def Fml.print : Fml → String
       "(forall ((" ++ x ++ " Int)) " ++ app "if" [app "=" ["(bound 0)", p.print], app "=" [app f ["(bound 0)"], toString q],
          app "=" [app f ["(bound 0)"], "0"]] ++ ")"
   | .reqSum lhs rhs => app "=" [app "to_real" [lhs.print], app "+" [app "to_real" [rhs.print], "(real 0/1)"]]
+  | .reqZero lhs => app "=" [app "to_real" [lhs.print], "(real 0/1)"]
   | .tracked p a => app "=>" ["asst_%a" ++ toString p ++ "%", a.print]
 def Fml.printList : List Fml → List String
   | [] => []
